@@ -12,7 +12,14 @@ reference interpreter over the checker's own AST):
        binder values that read the environment, so that one evaluation shows
        shadowing, non-leakage into siblings, `$` of the innermost lambda and
        lexical capture of def / lambda;
- (iii) each of them under several JSON-like documents bound to `$`.
+ (iii) each of them under several JSON-like documents bound to `$`;
+ (iv)  lambdas passed by keyword (select(selector =>), distinct(keySelector =>),
+       toDict(keySelector =>, valueSelector =>)) in the grammar and as a binder;
+       nests binding unusual but legal variable names (context, engine, args,
+       kwargs, self, _x, camelCase, non-ASCII ...) by let / unpack / keyword
+       argument of a defined function / of a delegate;
+ (v)   grammar and nests again in a context whose host overrides
+       #get_context_data (language reference, "Variable access").
 
 Values are compared exactly, errors coarsely (error <-> error).
 """
@@ -32,15 +39,20 @@ RULE = ('(i) all well-typed ASTs with <= N nodes from the typed grammar, per doc
 ASSUMPTIONS = [
     'the engine is created with allow_delegates=True and the context with delegates=True (needed for lambda()/delegate calls); default options',
     'redundant parentheses are semantically neutral (the printer parenthesises defensively; delegate calls always)',
+    'host-override jobs: the host registers its own #get_context_data in a child of the standard context (names bound in no scope are '
+    'answered from an external table, everything else by context lookup); the model gives the top frame a parent frame holding that table',
     'results are compared after finalisation (iterables have become lists)',
     'outside the documented domain, counted but not judged: a one-shot iterable consumed twice, equality/ordering/truth of '
     'booleans against numbers or of iterables/contexts, composite dictionary keys, contexts or delegates in the result',
 ]
 BOUNDS = {
     'quick': "grammar: <= 4 nodes over leaves {1 2 'a' null $ $2 $x $y} and 5 nodes over leaves {1 null $ $x}, 6 documents; "
-             'nests: depth <= 2 over 52 binders (values 1 $ $x [$x] $2), 3 documents; depth 3 over 32 binders (values $ $x [$x]), 1 document',
-    'thorough': 'grammar: <= 5 nodes over the full leaves, 6 documents, 6 nodes, 3 documents; nests: depth <= 3 over 52 binders, '
-                '3 documents; depth 4 over 22 binders (values $ $x), 1 document',
+             'nests: depth <= 2 over 57 binders (values 1 $ $x [$x] $2), 3 documents; depth 3 over 35 binders (values $ $x [$x]), 1 document; '
+             'name nests: depth <= 2 over 12 unusual names x 5 binding forms + 3 ordinary binders, 1 document; '
+             'host override of #get_context_data: grammar <= 3 nodes and nests depth <= 2, 1 document',
+    'thorough': 'grammar: <= 5 nodes over the full leaves, 6 documents, 6 nodes, 2 documents; nests: depth <= 3 over 57 binders, '
+                '3 documents; depth 4 over 24 binders (values $ $x), 1 document; name nests depth <= 2, 3 documents; '
+                'host override: grammar <= 4 nodes, 6 documents, nests depth <= 2, 3 documents',
 }
 
 # ---------------------------------------------------------------------------------
@@ -472,6 +484,8 @@ def failure_key(ast, notes, host):
     # a named input class where the model can tell it, else the set of constructs involved
     if 'unpack()/iterator' in notes:
         return 'unpack-positional-on-iterator', None
+    if 'distinct-key/dict' in notes and 'toDict' in features(ast):
+        return 'toDict-result-as-distinct-key', None
     fs = sorted(features(ast) | ({'host-override-of-variable-access'} if host else set()))
     return 'mismatch constructs=' + '+'.join(fs), fs
 
@@ -553,7 +567,7 @@ def jobs(tier, seed):
         for n in (1, 2, 3, 4):
             grammar('full', n, DOCS, 1)
         grammar('full', 5, DOCS, 3)
-        grammar('full', 6, [d for d in DOCS if d[0] in ('int', 'list', 'records')], 24)
+        grammar('full', 6, [d for d in DOCS if d[0] in ('int', 'records')], 32)
         nests('full', 1, NEST_DOCS, 1)
         nests('full', 2, NEST_DOCS, 2)
         nests('full', 3, NEST_DOCS, 24)
@@ -564,7 +578,6 @@ def jobs(tier, seed):
             grammar('full', n, DOCS, 1, 'host-grammar')
         nests('full', 1, NEST_DOCS, 1, 'host-nest')
         nests('full', 2, NEST_DOCS, 2, 'host-nest')
-        nests('small', 3, NEST_DOCS[:1], 16, 'host-nest')
     return out
 
 
